@@ -795,6 +795,33 @@ VARIANTS = [
      rep(CLI, "            epilog=epilog,\n", "            epilog=epilog,\n            fromfile_prefix_chars=\"@\",\n")),
     ("C20", None, "twin: parser keyword spelled out with its default value",
      rep(CLI, "            epilog=epilog,\n", "            epilog=epilog,\n            fromfile_prefix_chars=None,\n            allow_abbrev=True,\n")),
+    ("C03", "C03.h", "roll-back renames the pid reference away before comparing the cids",
+     rep_in(FHS, "_untag_object", "            self._validate_and_check_cid_lock(pid, cid, cid_to_check)\n\n            # Remove pid refs\n            pid_refs_path = self._get_hashstore_pid_refs_path(pid)\n            self._mark_pid_refs_file_for_deletion(\n                pid, untag_obj_delete_list, pid_refs_path\n            )\n",
+            "            # Remove pid refs\n            pid_refs_path = self._get_hashstore_pid_refs_path(pid)\n            self._mark_pid_refs_file_for_deletion(\n                pid, untag_obj_delete_list, pid_refs_path\n            )\n            self._validate_and_check_cid_lock(pid, cid, cid_to_check)\n")),
+    ("C14", "C14.b", "accepted-algorithm gate tests an upper-cased copy, the raw spelling is recorded",
+     rep_in(FHS, "_write_properties", "        if store_algorithm in accepted_store_algorithms:\n", "        if store_algorithm.upper() in accepted_store_algorithms:\n")),
+    ("C14", None, "twin: accepted-algorithm gate through a local copy of the value",
+     rep_in(FHS, "_write_properties", "        if store_algorithm in accepted_store_algorithms:\n            checked_store_algorithm = store_algorithm\n",
+            "        candidate_algorithm = store_algorithm\n        if candidate_algorithm in accepted_store_algorithms:\n            checked_store_algorithm = candidate_algorithm\n")),
+    ("C06", "C06.j", "size validation guarded by the truth value of the measured size",
+     rep_in(FHS, "_verify_object_information", "        if file_size_to_validate is not None and file_size_to_validate > 0:\n", "        if file_size_to_validate and tmp_file_size:\n")),
+    ("C06", None, "twin: size validation guarded by the truth value of the EXPECTED size (never 0: sizes below 1 are rejected earlier)",
+     rep_in(FHS, "_verify_object_information", "        if file_size_to_validate is not None and file_size_to_validate > 0:\n", "        if file_size_to_validate is not None and file_size_to_validate >= 1:\n")),
+    ("C16", "C16.g", "fork hook empties the claim lists in every forked child",
+     chain(rep_in(FHS, "__init__", "            self.fhs_logger.debug(\"Initialization success. Store root: %s\", self.root)\n",
+                  "            os.register_at_fork(after_in_child=self._forget_inherited_claims)\n            self.fhs_logger.debug(\"Initialization success. Store root: %s\", self.root)\n"),
+           rep(FHS, "    def _delete_object_only(self, cid: str) -> None:\n", "    def _forget_inherited_claims(self) -> None:\n        mode = \"mp\" if self.use_multiprocessing else \"th\"\n        for claims in (\"object_locked_pids\", \"object_locked_cids\", \"metadata_locked_docs\", \"reference_locked_pids\"):\n            del getattr(self, f\"{claims}_{mode}\")[:]\n\n    def _delete_object_only(self, cid: str) -> None:\n"))),
+    ("C16", None, "twin: fork hook that only logs",
+     chain(rep_in(FHS, "__init__", "            self.fhs_logger.debug(\"Initialization success. Store root: %s\", self.root)\n",
+                  "            os.register_at_fork(after_in_child=self._note_fork)\n            self.fhs_logger.debug(\"Initialization success. Store root: %s\", self.root)\n"),
+           rep(FHS, "    def _delete_object_only(self, cid: str) -> None:\n", "    def _note_fork(self) -> None:\n        self.fhs_logger.debug(\"forked: pid %s\", os.getpid())\n\n    def _delete_object_only(self, cid: str) -> None:\n"))),
+    ("C02", "C02.k", "on-demand digest reads the stored object through a text-mode handle",
+     rep_in(FHS, "_verify_object_information", "                    cid_stream = self._open(entity, object_cid)\n", "                    cid_stream = open(self._get_hashstore_data_object_path(object_cid))\n")),
+    ("C02", None, "twin: on-demand digest reads the stored object through an explicit binary open",
+     rep_in(FHS, "_verify_object_information", "                    cid_stream = self._open(entity, object_cid)\n", "                    cid_stream = open(self._get_hashstore_data_object_path(object_cid), \"rb\")\n")),
+    ("C15", None, "twin: _computehash reads a handle in fixed-size blocks until the empty read",
+     rep_in(FHS, "_computehash", "        for data in stream:\n            hash_obj.update(self._cast_to_bytes(data))\n",
+            "        if hasattr(stream, \"read\"):\n            while data := stream.read(65536):\n                hash_obj.update(self._cast_to_bytes(data))\n        else:\n            for data in stream:\n                hash_obj.update(self._cast_to_bytes(data))\n")),
     ("C13", "C13.h", "return inside finally swallows the error",
      rep_in(FHS, "_delete_object_only", "        finally:\n            self._release_object_locked_cids(cid)\n", "        finally:\n            self._release_object_locked_cids(cid)\n            return\n")),
 ]
